@@ -10,6 +10,7 @@ import (
 	"math/big"
 	"sort"
 	"strings"
+	"sync"
 	"sync/atomic"
 )
 
@@ -43,6 +44,71 @@ const (
 )
 
 var nextID uint64
+
+// ---- hash-consing: structurally equal terms are one object ----
+
+type internKey struct {
+	op         Op
+	sort       Sort
+	name       string
+	iv         int64
+	n          int
+	a0, a1, a2 uint64
+	rest       string
+}
+
+const nShards = 256
+
+var internTab [nShards]struct {
+	mu sync.Mutex
+	m  map[internKey]*T
+}
+
+// ResetIntern drops the table (terms already built stay valid).
+func ResetIntern() {
+	for i := range internTab {
+		internTab[i].mu.Lock()
+		internTab[i].m = nil
+		internTab[i].mu.Unlock()
+	}
+}
+
+func intern(t *T) *T {
+	k := internKey{op: t.Op, sort: t.Sort, name: t.Name, iv: t.IV, n: len(t.Args)}
+	h := uint64(t.Op)*1000003 + uint64(len(t.Args)) + uint64(t.IV)*7919
+	for i, a := range t.Args {
+		h = h*1000003 + a.ID
+		switch i {
+		case 0:
+			k.a0 = a.ID
+		case 1:
+			k.a1 = a.ID
+		case 2:
+			k.a2 = a.ID
+		}
+	}
+	if len(t.Args) > 3 {
+		var b strings.Builder
+		for _, a := range t.Args[3:] {
+			fmt.Fprintf(&b, "%d,", a.ID)
+		}
+		k.rest = b.String()
+	}
+	for i := 0; i < len(t.Name); i++ {
+		h = h*31 + uint64(t.Name[i])
+	}
+	sh := &internTab[h%nShards]
+	sh.mu.Lock()
+	defer sh.mu.Unlock()
+	if sh.m == nil {
+		sh.m = map[internKey]*T{}
+	}
+	if old, ok := sh.m[k]; ok {
+		return old
+	}
+	sh.m[k] = t
+	return t
+}
 
 // T is an immutable term.
 type T struct {
@@ -83,7 +149,7 @@ func I(v int64) *T {
 	}
 	t := newT(OConst, Int)
 	t.IV, t.Lo, t.Hi = v, v, v
-	return t
+	return intern(t)
 }
 
 func BigI(b *big.Int) *T {
@@ -92,6 +158,7 @@ func BigI(b *big.Int) *T {
 	}
 	t := newT(OConst, Int)
 	t.Big = new(big.Int).Set(b)
+	t.Name = "#" + b.String()
 	if b.Sign() > 0 {
 		t.Lo, t.HiInf = math.MaxInt64, true
 		t.Hi = math.MaxInt64
@@ -175,7 +242,7 @@ func Not(a *T) *T {
 	}
 	t := newT(ONot, Bool)
 	t.Args = []*T{a}
-	return t
+	return intern(t)
 }
 
 func And(xs ...*T) *T {
@@ -211,7 +278,7 @@ func And(xs ...*T) *T {
 	}
 	t := newT(OAnd, Bool)
 	t.Args = out
-	return t
+	return intern(t)
 }
 
 func Or(xs ...*T) *T {
@@ -247,7 +314,7 @@ func Or(xs ...*T) *T {
 	}
 	t := newT(OOr, Bool)
 	t.Args = out
-	return t
+	return intern(t)
 }
 
 func dedup(xs []*T) []*T {
@@ -315,7 +382,7 @@ func Ite(c, a, b *T) *T {
 		t.Lo, t.LoInf = minB(a.Lo, a.LoInf, b.Lo, b.LoInf)
 		t.Hi, t.HiInf = maxB(a.Hi, a.HiInf, b.Hi, b.HiInf)
 	}
-	return t
+	return intern(t)
 }
 
 func minB(a int64, ai bool, b int64, bi bool) (int64, bool) {
@@ -376,7 +443,7 @@ func Eq(a, b *T) *T {
 		a, b = b, a
 	}
 	t.Args = []*T{a, b}
-	return t
+	return intern(t)
 }
 
 func Ne(a, b *T) *T { return Not(Eq(a, b)) }
@@ -396,7 +463,7 @@ func Lt(a, b *T) *T {
 	}
 	t := newT(OLt, Bool)
 	t.Args = []*T{a, b}
-	return t
+	return intern(t)
 }
 
 func Le(a, b *T) *T {
@@ -414,7 +481,7 @@ func Le(a, b *T) *T {
 	}
 	t := newT(OLe, Bool)
 	t.Args = []*T{a, b}
-	return t
+	return intern(t)
 }
 
 func Gt(a, b *T) *T { return Lt(b, a) }
@@ -479,7 +546,7 @@ func Add(a, b *T) *T {
 	} else {
 		t.Hi = c
 	}
-	return t
+	return intern(t)
 }
 
 func Neg(a *T) *T {
@@ -501,7 +568,7 @@ func Neg(a *T) *T {
 	} else {
 		t.Hi = -a.Lo
 	}
-	return t
+	return intern(t)
 }
 
 func Sub(a, b *T) *T {
@@ -530,7 +597,7 @@ func Sub(a, b *T) *T {
 	} else {
 		t.Hi = c
 	}
-	return t
+	return intern(t)
 }
 
 func Mul(a, b *T) *T {
@@ -575,7 +642,7 @@ func Mul(a, b *T) *T {
 			first = false
 		}
 	}
-	return t
+	return intern(t)
 }
 
 // Div is SMT-LIB div; callers guarantee b is a non-zero constant or handle
@@ -596,7 +663,7 @@ func Div(a, b *T) *T {
 	} else {
 		t.LoInf, t.HiInf = true, true
 	}
-	return t
+	return intern(t)
 }
 
 func floorDiv(a, b int64) int64 {
@@ -624,7 +691,7 @@ func Mod(a, b *T) *T {
 	} else {
 		t.LoInf, t.HiInf = true, true
 	}
-	return t
+	return intern(t)
 }
 
 // BvOp is a bitwise operation on width-bit unsigned views of a and b; the
@@ -666,7 +733,7 @@ func BvOp(name string, width int, a, b *T) *T {
 		t.HiInf = true
 		t.Hi = math.MaxInt64
 	}
-	return t
+	return intern(t)
 }
 
 // ---- printing ----
@@ -677,6 +744,22 @@ type Printer struct {
 	declared map[string]bool // variables / functions
 	defined  map[uint64]string
 	Out      *strings.Builder
+	jDecl    []string // journal of additions, for scoped undo
+	jDef     []uint64
+}
+
+// Mark returns a position in the journal; Undo(mark) forgets everything
+// declared or defined since (used around solver push/pop).
+func (p *Printer) Mark() [2]int { return [2]int{len(p.jDecl), len(p.jDef)} }
+
+func (p *Printer) Undo(m [2]int) {
+	for _, k := range p.jDecl[m[0]:] {
+		delete(p.declared, k)
+	}
+	for _, k := range p.jDef[m[1]:] {
+		delete(p.defined, k)
+	}
+	p.jDecl, p.jDef = p.jDecl[:m[0]], p.jDef[:m[1]]
 }
 
 func NewPrinter() *Printer {
@@ -686,6 +769,7 @@ func NewPrinter() *Printer {
 func (p *Printer) Reset() {
 	p.declared = map[string]bool{}
 	p.defined = map[uint64]string{}
+	p.jDecl, p.jDef = nil, nil
 	p.Out.Reset()
 }
 
@@ -755,6 +839,7 @@ func (p *Printer) Prepare(t *T) string {
 			q := quoteSym(t.Name)
 			if !p.declared[t.Name] {
 				p.declared[t.Name] = true
+				p.jDecl = append(p.jDecl, t.Name)
 				fmt.Fprintf(p.Out, "(declare-const %s %s)\n", q, sortName(t.Sort))
 			}
 			return q
@@ -766,6 +851,7 @@ func (p *Printer) Prepare(t *T) string {
 			}
 			if !p.declared[t.Name] {
 				p.declared[t.Name] = true
+				p.jDecl = append(p.jDecl, t.Name)
 				ss := make([]string, len(t.Args))
 				for i, a := range t.Args {
 					ss[i] = sortName(a.Sort)
@@ -820,6 +906,7 @@ func (p *Printer) Prepare(t *T) string {
 			n := fmt.Sprintf("t!%d", t.ID)
 			fmt.Fprintf(p.Out, "(define-fun %s () %s %s)\n", n, sortName(t.Sort), s)
 			p.defined[t.ID] = n
+			p.jDef = append(p.jDef, t.ID)
 			return n
 		}
 		return s
